@@ -183,7 +183,7 @@ def main(argv=None):
   if exit_code == 0:
     if errors:
       for r in errors:
-        print('CHECKER-ERROR unit=%s\n%s' % (r['unit'], r['error']))
+        print('CHECKER-ERROR unit=%s\n%s' % (r['unit'], '\n'.join(r['error'].splitlines()[-6:])))
       exit_code = 3
     elif undecided_units or unknown or bad_covers:
       for r in undecided_units:
@@ -210,7 +210,7 @@ def main(argv=None):
     for r in undecided_units:
       print('   undecided unit', r['unit'], ':', r['undecided'])
     for r in errors:
-      print('   error', r['unit'], r['error'][-600:])
+      print('   error', r['unit'], ' | '.join(r['error'].splitlines()[-4:]))
     for o in all_obs:
       if o['status'] != 'unsat':
         print('  ', o['status'], o['name'], o['info'].get('msg', ''), o.get('model'))
